@@ -88,3 +88,31 @@ fn c10_valid_lf_all_sizes() {
     kani::cover!(math > i16::MAX as i64, "sizes that sum past 2^15");
     kani::cover!(math == 12, "minimal file");
 }
+
+/// The largest declarable file: lf = 32767 words (131068 bytes). The 24 header bytes are symbolic,
+/// the body is zero. Sub-file sizes that are individually valid but sum past 2^15 must be rejected,
+/// never sliced. (The sum itself is the subject; the body content is irrelevant to the slicing.)
+#[kani::proof]
+#[kani::unwind(26)]
+fn c10_raw_header_largest_lf() {
+    let mut buf: Vec<u8> = vec![0u8; 131072];
+    let header: [u8; 24] = kani::any();
+    kani::assume(header[0] == 0x7F && header[1] == 0xFF);
+    let mut i = 0;
+    while i < 24 {
+        buf[i] = header[i];
+        i += 1;
+    }
+    let (r, warnings) = RawFile::deserialize(&buf[..]);
+    if let Ok(raw) = &r {
+        let total = raw.raw_sub_file_sizes.len() + raw.header.len() + raw.char_infos.len() + raw.widths.len() + raw.heights.len()
+            + raw.depths.len() + raw.italic_corrections.len() + raw.lig_kern_instructions.len() + raw.kerns.len()
+            + raw.extensible_recipes.len() + raw.params.len();
+        assert!(total == 4 * 32767, "the sub-files tile exactly the declared bytes");
+    }
+    kani::cover!(r.is_ok(), "a consistent header with lf = 32767");
+    kani::cover!(r.is_err() && header[2] == 0 && header[3] == 2 && header[9] == 1 && header[11] == 1 && header[13] == 1 && header[15] == 1 && header[16] == 0x7F, "sizes that sum past 2^15 with lf = 32767");
+    std::mem::forget(r);
+    std::mem::forget(warnings);
+    std::mem::forget(buf);
+}
